@@ -16,6 +16,7 @@ type GenCfg struct {
 	LongStr     int  // occasional long string
 	NullPct     int  // probability (percent) an optional is nil
 	Adversarial bool // bias scalars to extremes
+	UniformStr  bool // ordinary strings have a length in [MaxStr/2, MaxStr] instead of rapid's small-biased lengths
 	// Class selects an adversarial value class for all scalars of a workload:
 	// "" (mixed), "neg" (all negative / high bit set), "tiny" (two-value domains, many equal),
 	// "nan" (floats mostly NaN/Inf/zero), "sentinel" (strings around "__#NIL#__"), "longstr" (60..146-byte strings with long common prefixes).
@@ -78,11 +79,17 @@ func GenLeaf(t *rapid.T, k Kind, cfg GenCfg, label string) *Val {
 		if special {
 			return &Val{S: Bytes(rapid.SampledFrom(strSpecials).Draw(t, label))}
 		}
-		max := cfg.MaxStr
 		if cfg.LongStr > 0 && rapid.IntRange(0, 39).Draw(t, label+"?long") == 0 {
-			max = cfg.LongStr
+			// a long string: length in the upper half of the bound, incompressible-looking content expanded
+			// from one drawn word (drawing tens of thousands of bytes one by one would exhaust rapid's budget)
+			n := rapid.IntRange(cfg.LongStr/2, cfg.LongStr).Draw(t, label+"#longlen")
+			return &Val{S: expandBytes(rapid.Uint64().Draw(t, label+"#seed"), n)}
 		}
-		b := rapid.SliceOfN(rapid.Byte(), 0, max).Draw(t, label)
+		if cfg.UniformStr {
+			n := rapid.IntRange(cfg.MaxStr/2, cfg.MaxStr).Draw(t, label+"#len")
+			return &Val{S: expandBytes(rapid.Uint64().Draw(t, label+"#seed"), n)}
+		}
+		b := rapid.SliceOfN(rapid.Byte(), 0, cfg.MaxStr).Draw(t, label)
 		return &Val{S: Bytes(b)}
 	}
 	panic("bad kind")
@@ -237,4 +244,20 @@ func genClassLeaf(t *rapid.T, k Kind, cfg GenCfg, label string) *Val {
 		}
 	}
 	return nil
+}
+
+// expandBytes produces n bytes from a 64-bit word with a xorshift generator (all byte values occur).
+func expandBytes(seed uint64, n int) Bytes {
+	if seed == 0 {
+		seed = 0x9e3779b97f4a7c15
+	}
+	out := make(Bytes, n)
+	x := seed
+	for i := range out {
+		x ^= x << 13
+		x ^= x >> 7
+		x ^= x << 17
+		out[i] = byte(x >> 24)
+	}
+	return out
 }
